@@ -1,19 +1,17 @@
 """File-system helpers independent of libfs: sparse file construction, FIEMAP and SEEK readers, snapshots."""
-import fcntl, hashlib, os, stat, struct
+import fcntl, hashlib, os, random, stat, struct
 
 FS_IOC_FIEMAP = 0xC020660B
 FIEMAP_EXTENT_LAST = 0x1
 FIEMAP_EXTENT_SHARED = 0x2000
 
 
+_NZ = bytes([1] + list(range(1, 256)))
+
+
 def lcg_bytes(n, seed):
-    """n pseudo-random non-zero bytes (tiny LCG)."""
-    out = bytearray(n)
-    x = (seed * 2654435761 + 12345) & 0xFFFFFFFF
-    for i in range(n):
-        x = (x * 1103515245 + 12345) & 0x7FFFFFFF
-        out[i] = (x >> 16) % 255 + 1
-    return bytes(out)
+    """n deterministic pseudo-random non-zero bytes."""
+    return random.Random(seed).randbytes(n).translate(_NZ)
 
 
 def make_file(path, length, segs, seed=1, sync=True):
